@@ -13,9 +13,12 @@ pub fn contract_enumerated_parser<C: Ctx>(cx: &mut C, max_root: usize, max_add: 
     // 4 nested block comment whose inner opener is followed by `/`,
     // 5 / 6 a block / line comment glued (no white-space) to the token before it: after `{`, after an identifier, after `)`, after `...`
     // 7 a line comment that runs to the end of the line and contains multi-byte characters (and a word that would lex as an item)
-    let comments = cx.choose(8);
-    let between = ["", " -- c -- ", " /* c */ ", "", " /* a /*/ b */ c */ ", "", "", " -- temperature in \u{b0}C, \u{20ac} zz\n "][comments];
-    let glued = ["", "", "", "", "", "/*g*/", "--g--", ""][comments];
+    // 8 a line comment, 9 a block comment between a number and its closing parenthesis; 10 compact notation without any white-space
+    let comments = cx.choose(11);
+    let between = ["", " -- c -- ", " /* c */ ", "", " /* a /*/ b */ c */ ", "", "", " -- temperature in \u{b0}C, \u{20ac} zz\n ", "", "", ""][comments];
+    let glued = ["", "", "", "", "", "/*g*/", "--g--", "", "", "", ""][comments];
+    let after_number = ["", "", "", "", "", "", "", "", " -- n --", " /* n */ ", ""][comments];
+    let compact = comments == 10;
     let in_parens = if comments == 3 { "--c--" } else { "" };
     let n_root = 1 + cx.choose(max_root);
     let marker = cx.any_bool();
@@ -31,7 +34,7 @@ pub fn contract_enumerated_parser<C: Ctx>(cx: &mut C, max_root: usize, max_add: 
         if i > 0 { src.push_str(", "); src.push_str(between); }
         src.push_str(&name);
         src.push_str(glued);
-        if let Some(v) = w { src.push_str(&format!("({in_parens}{v}){glued}")); }
+        if let Some(v) = w { src.push_str(&format!("({in_parens}{v}{after_number}){glued}")); }
         names.push(name);
     }
     if marker {
@@ -45,11 +48,12 @@ pub fn contract_enumerated_parser<C: Ctx>(cx: &mut C, max_root: usize, max_add: 
             src.push_str(between);
             src.push_str(&name);
             src.push_str(glued);
-            if let Some(v) = w { src.push_str(&format!("({in_parens}{v}){glued}")); }
+            if let Some(v) = w { src.push_str(&format!("({in_parens}{v}{after_number}){glued}")); }
             names.push(name);
         }
     }
     src.push_str(" }");
+    let src = if compact { src.replace(' ', "") } else { src };
     cx.describe(|| src.clone());
     let parsed = enumerated(src.as_str().into());
     match parsed {
